@@ -90,7 +90,7 @@ def corrupt(rng, m, cert, k=None):
     import base64
     c = copy.deepcopy(cert)
     root = m.certs[0]
-    k = rng.randrange(11) if k is None else k
+    k = rng.randrange(12) if k is None else k
     e = rng.choice(c["elements"])
     if k in (0, 1, 6):
         e = rng.choice([x for x in c["elements"] if x["type"] != "x509_pem"])
@@ -137,6 +137,26 @@ def corrupt(rng, m, cert, k=None):
                               "signed_by": "sgx_root"})
         if rng.random() < 0.7:
             root = sgxgen.Material(rng, depth=1).certs[0]
+    elif k in (10, 11):
+        # a VALIDLY SIGNED report body whose report data holds the binding digest, but not at its beginning
+        # (shifted by 1..32 bytes): the property requires the report data to BEGIN with the digest
+        import hashlib
+        shift = rng.choice([1, 1, 2, 16, 31, 32])
+        pad = bytes(rng.getrandbits(8) for _ in range(shift))
+        if k == 10:
+            a = [x for x in c["elements"] if x["type"] == "sgx_attestation_key"][0]
+            digest = hashlib.sha256(sgxgen.raw_xy(m.att_key) + m.auth_data).digest()
+            rb = bytearray(m.qe_report)
+            rb[320:384] = (pad + digest + bytes(64))[:64]
+            a["message"] = bytes(rb).hex()
+            a["signature"] = sgxgen.sign_der(m.keys[-1], bytes(rb)).hex()
+        else:
+            q = [x for x in c["elements"] if x["type"] == "sgx_quote"][0]
+            digest = hashlib.sha256(m.custom).digest()
+            qb = bytearray(m.quote)
+            qb[48 + 320:48 + 384] = (pad + digest + bytes(64))[:64]
+            q["message"] = bytes(qb).hex()
+            q["signature"] = sgxgen.sign_der(m.att_key, bytes(qb)).hex()
     return c, root
 
 
@@ -154,7 +174,7 @@ def gen(tier, rng):
         root = m.certs[0]
         kind = "genuine" if validity is None else "validity-" + validity[1]
         if rng.random() < 0.55:
-            cert, root = corrupt(rng, m, cert, k=i % 10)
+            cert, root = corrupt(rng, m, cert, k=i % 12)
             kind = "corrupted"
         from cryptography.hazmat.primitives import serialization
         # the verification's clock: now, far in the future (everything expired), in the past (nothing valid yet)
